@@ -388,7 +388,7 @@ class StridedInterval:
                 straddling = True
 
         if straddling:
-            a_upper_bound = north_pole_left - ((north_pole_left - self.lower_bound) % self.stride)
+            a_upper_bound = north_pole_left - (((north_pole_left - self.lower_bound) % (2**self.bits)) % self.stride)
             a = StridedInterval(
                 bits=self.bits,
                 stride=self.stride,
